@@ -20,8 +20,19 @@ def expand(text, defs, depth=4):
 _ABSURD = {"truthy(None)", "truthy(False)", "falsy(True)", "isnot(None,None)", "truthy(())", "truthy([])", "truthy(0)", "truthy('')"}
 
 
+_CLS = re.compile(r"^(is|isnot|eq|ne)\(([A-Z]\w*|None),([A-Z]\w*|None)\)$")
+
+
 def _absurd(a):
-    return a.replace("(None)", "None").replace("(False)", "False").replace("(True)", "True") in _ABSURD
+    a = a.replace("(None)", "None").replace("(False)", "False").replace("(True)", "True")
+    if a in _ABSURD:
+        return True
+    # two different class names (or a class name and None) are different objects; a name is itself
+    m = _CLS.match(a)
+    if m:
+        same = m.group(2) == m.group(3)
+        return (not same) if m.group(1) in ("is", "eq") else same
+    return False
 
 
 def stmt_paths(stmts, facts, defs, flag, probe=None, opaque_loops=False):
